@@ -308,7 +308,7 @@ func (c *Ctx) checkHistC03x(h hist, cases *[]mcase) {
 }
 
 func runC03(c *Ctx) {
-	c.R.Rule = "merge/unmerge/read histories of overlapping, nested, chained and crossing ranges: ranges reported mid-history, at the end and by the reopened file compared with the extracted model of mergeOverlapCells and checked pairwise disjoint; write histories (1..25 ops: every SetCellValue payload kind, formulas, cell/row styles, non-overlapping merges, alternative spellings) on the initial sheet or a sheet created by NewSheet, over a 6x6 window at the origin or at far positions (XFD, row 1000); observation of the whole window (raw value, type, formula, effective style) compared with the extracted model; typed setters (SetCellInt/Uint/Float with precision/Str/Bool/Default) and bulk setters (SetSheetRow, SetSheetCol) against a twin workbook receiving the equivalent SetCellValue calls, in memory and after save+open; non-trivial = at least one overwrite of a cell or a merge"
+	c.R.Rule = "merge/unmerge/read histories of overlapping, nested, chained and crossing ranges: ranges reported mid-history, at the end and by the reopened file compared with the extracted model of mergeOverlapCells and checked pairwise disjoint; write histories (1..25 ops: every SetCellValue payload kind, formulas, cell/row styles, non-overlapping merges, alternative spellings) on the initial sheet or a sheet created by NewSheet, over a 6x6 window at the origin or at far positions (XFD, row 1000); observation of the whole window (raw value, type, formula, effective style) compared with the extracted model; typed setters (SetCellInt/Uint/Float with precision/Str/Bool/Default) and bulk setters (SetSheetRow, SetSheetCol) against a twin workbook receiving the equivalent SetCellValue calls, in memory and after save+open; SetCellHyperLink sequences (external, location, removal) read back by GetCellHyperLink; non-trivial = at least one overwrite of a cell or a merge"
 	n := 400
 	if c.Thorough() {
 		n = 20000
@@ -326,6 +326,7 @@ func runC03(c *Ctx) {
 	c.c03Overlaps()
 	c.c03Merges(n)
 	c.c03Typed(n / 2)
+	c.c03Hyperlinks(n / 2)
 	c.overlapMergeProbe("C03")
 }
 
